@@ -242,7 +242,10 @@ def run_history(method, kname, dim, two, ops, periodic=False):
             # the defining sums need a kernel, a kernel needs h > 0
             return [('target-h-not-positive', dict(step=step, op=op,
                                                    h=th))], nev
-        for fieldname in ('f', 'const', 'linear'):
+        # f is interpolated first and last in every step, so that across
+        # steps the same property is asked for twice in a row with only the
+        # step's operation (new values, moved particles, ...) in between
+        for fieldname in ('f', 'const', 'linear', 'f'):
             if fieldname == 'f':
                 field = lambda pa: pa.get('f', only_real_particles=False)\
                     .copy()
